@@ -64,9 +64,15 @@ theorem names_unique {ops : List Op} {n : String} {a b : Op} (hu : (ops.map (·.
     · rw [hb] at ma; simpa using ma
   · rw [ha] at mb; exact (by simpa using mb : b = a).symm
 
+/-- the regenerated stamps: every refusal exit of the executor returns an error carrying its protocol code -/
+theorem stamps :
+    stampParseGql = some ParseFailed ∧ stampParsePlain = some ParseFailed ∧ stampNoOperation = some ValidationFailed ∧
+    stampInvalid = some ValidationFailed ∧ stampOpNotFound = some ValidationFailed ∧
+    stampVariables = some ValidationFailed := by decide
+
 /-- what the gate lets through -/
 theorem gate_ok {r : Req} {op : Op} (h : gate r = .ok op) :
-    r.paramErr = none ∧ ∃ l, r.doc = .ops l ∧ forName l r.opName = some op ∧ r.varsOk = true := by
+    r.paramErr = none ∧ ∃ l, r.doc = .ops l ∧ forName l r.opName = some op ∧ r.varsOk = true ∧ r.ctxErr = none := by
   unfold gate at h
   split at h
   · cases h
@@ -81,44 +87,52 @@ theorem gate_ok {r : Req} {op : Op} (h : gate r = .ok op) :
       · cases h
       · rename_i op' hf
         by_cases hv : r.varsOk = true
-        · simp [hv] at h; subst h; exact ⟨_, hl, hf, hv⟩
+        · simp only [hv, if_true] at h
+          split at h
+          · cases h
+          · rename_i hc; cases h; exact ⟨_, hl, hf, hv, hc⟩
         · simp [hv] at h
 
 /-- what the gate stops: the error codes are the ones of the stage that stopped the request -/
 theorem gate_err {r : Req} {codes : List (Option String)} (h : gate r = .err codes) :
-    (∃ c, r.paramErr = some c ∧ codes = [c]) ∨
+    (∃ c, (r.paramErr = some c ∨ (r.paramErr = none ∧ docFails r = false ∧ r.ctxErr = some c)) ∧ codes = [c]) ∨
     (r.paramErr = none ∧ docFails r = true ∧ (codes = [some ParseFailed] ∨ codes = [some ValidationFailed])) := by
+  obtain ⟨s1, s2, s3, s4, s5, s6⟩ := stamps
   unfold gate at h
   split at h
-  · rename_i c hp; left; exact ⟨c, hp, by cases h; rfl⟩
+  · rename_i c hp; left; exact ⟨c, Or.inl hp, by cases h; rfl⟩
   · rename_i hp
-    right
-    refine ⟨hp, ?_⟩
     split at h
-    · rename_i hd; cases h; exact ⟨by simp [docFails, hd], Or.inl rfl⟩
-    · rename_i hd; cases h; exact ⟨by simp [docFails, hd], Or.inr rfl⟩
-    · rename_i hd; cases h; exact ⟨by simp [docFails, hd, forName], Or.inr rfl⟩
+    · rename_i hd; cases h; right
+      exact ⟨hp, by simp [docFails, hd], Or.inl (by cases r.parsePlain <;> simp [s1, s2])⟩
+    · rename_i hd; cases h; right; exact ⟨hp, by simp [docFails, hd], Or.inr (by rw [s4])⟩
+    · rename_i hd; cases h; right; exact ⟨hp, by simp [docFails, hd, forName], Or.inr (by rw [s3])⟩
     · rename_i l _ hd
       split at h
-      · rename_i hf; cases h; exact ⟨by simp [docFails, hd, hf], Or.inr rfl⟩
+      · rename_i hf; cases h; right; exact ⟨hp, by simp [docFails, hd, hf], Or.inr (by rw [s5])⟩
       · rename_i op hf
         by_cases hv : r.varsOk = true
-        · simp [hv] at h
-        · simp only [hv] at h; cases h
-          exact ⟨by simp [docFails, hd, hv], Or.inr rfl⟩
+        · simp only [hv, if_true] at h
+          split at h
+          · rename_i c hc; cases h; left
+            exact ⟨c, Or.inr ⟨hp, by simp [docFails, hd, hf, hv], hc⟩, rfl⟩
+          · cases h
+        · simp only [hv] at h; cases h; right
+          exact ⟨hp, by simp [docFails, hd, hv], Or.inr (by rw [s6])⟩
 
 /-- a document that fails is stopped by the gate (when no parameter mutator stopped the request first) -/
 theorem gate_of_docFails {r : Req} (hp : r.paramErr = none) (hf : docFails r = true) :
     gate r = .err [some ParseFailed] ∨ gate r = .err [some ValidationFailed] := by
   cases hg : gate r with
   | err codes =>
-    rcases gate_err hg with ⟨c, hc, _⟩ | ⟨_, _, h | h⟩
+    rcases gate_err hg with ⟨c, hc | ⟨_, hc, _⟩, _⟩ | ⟨_, _, h | h⟩
     · rw [hp] at hc; cases hc
+    · rw [hf] at hc; cases hc
     · left; rw [h]
     · right; rw [h]
   | ok op =>
     exfalso
-    obtain ⟨_, l, hl, hfn, hv⟩ := gate_ok hg
+    obtain ⟨_, l, hl, hfn, hv, _⟩ := gate_ok hg
     simp [docFails, hl, hfn, hv] at hf
 
 /-- Exhaustive description of the answers of `serve`. -/
